@@ -698,13 +698,286 @@ def correspondence(rng, tier):
     return S.all()
 
 
+# ------------------------------------------------------------------ probes: the property itself
+def _np_rng(seed):
+    return np.random.RandomState(seed)
+
+
+def _vals(rs, shape, dtype, lo=-6, hi=6, nonzero=False):
+    v = rs.randint(lo, hi + 1, size=shape).astype(float)
+    if nonzero:
+        v = np.where(v == 0, 2.0, v)
+    if np.dtype(dtype).kind == 'c':
+        v = v + 1j * rs.randint(-3, 4, size=shape)
+    return v
+
+
+def _close(got, want, dtype):
+    k = np.dtype(dtype)
+    if k.kind in 'iu':
+        return bool(np.array_equal(got, want))
+    rtol = {2: 1e-2, 4: 1e-5, 8: 1e-12, 16: 1e-12}[k.itemsize if k.kind == 'f' else k.itemsize // 2]
+    return bool(np.allclose(got, want, rtol=rtol, atol=rtol, equal_nan=False)) and bool(np.all(np.isfinite(got)))
+
+
+def oracle(kind, **p):
+    """Evaluate the property on the real implementation; returns (ok, observed, expected).
+    Self-contained and deterministic in its parameters (used by the replay snippets)."""
+    import odl
+    rs = _np_rng(p.get('seed', 0))
+    with np.errstate(all='ignore'):
+        if kind == 'lincomb':
+            dtype, shape = p['dtype'], tuple(p['shape'])
+            space = odl.tensor_space(shape, dtype=dtype)
+            ix1, ix2, iout = ALIAS[p['alias']]
+            els = []
+            for k in range(3):
+                arr = with_layout(_vals(rs, shape, dtype), dtype, p['layouts'][k])
+                if p.get('nan_out') and k == iout and iout not in (ix1, ix2):
+                    arr[...] = np.nan
+                els.append(space.element(arr))
+            before = [np.array(e.data, copy=True) for e in els]
+            a, b = p['a'], p['b']
+            wide = complex if np.dtype(dtype).kind == 'c' else float
+            want = a * before[ix1].astype(wide) + b * before[ix2].astype(wide)     # independent, entry-wise
+            res = space.lincomb(a, els[ix1], b, els[ix2], out=els[iout])
+            got = np.asarray(els[iout].data)
+            ok = res is els[iout] and _close(got, want.astype(dtype) if np.dtype(dtype).kind in 'iu' else want, dtype)
+            for k in range(3):
+                if k != iout and els[k].data.tobytes() != before[k].tobytes():
+                    ok = False
+            return ok, got.ravel()[:8].tolist(), want.ravel()[:8].tolist()
+        if kind == 'set_zero':
+            space = odl.tensor_space(p['n'], dtype=p['dtype']) if p.get('space', 'tensor') == 'tensor' else \
+                odl.uniform_discr(0, 1, p['n'], dtype=p['dtype'])
+            y = space.element(np.full(p['n'], {'nan': np.nan, 'inf': np.inf}[p['fill']]))
+            y.set_zero()
+            got = np.asarray(y)
+            return bool(np.all(got == 0)), got[:4].tolist(), [0.0] * min(4, p['n'])
+        if kind == 'inf':
+            n, op = p['n'], p['op']
+            if op == 'pspace_copy':
+                space = odl.ProductSpace(odl.rn(n), 2)
+                x = space.element([np.r_[np.inf, np.ones(n - 1)], np.ones(n)])
+                got = np.asarray(x.copy()[0])
+                want = np.asarray(x[0])
+            else:
+                space = odl.rn(n)
+                x = space.element(np.r_[np.inf, -np.inf, np.ones(n - 2)])
+                want = np.array(x.data, copy=True)
+                if op == 'assign':
+                    y = space.zero(); y.assign(x); got = np.asarray(y)
+                elif op == 'mul_scalar':
+                    got = np.asarray(x * 2.0); want = want * 2.0
+                elif op == 'imul_scalar':
+                    x *= 2.0; got = np.asarray(x); want = want * 2.0
+                elif op == 'lincomb_b0':
+                    y = space.one(); z = space.element()
+                    space.lincomb(1.0, x, 0.0, y, out=z); got = np.asarray(z)
+                elif op == 'neg':
+                    got = np.asarray(-x); want = -want
+                else:
+                    raise ValueError(op)
+            return bool(np.array_equal(got, want)), got[:4].tolist(), want[:4].tolist()
+        if kind == 'int_scalar':
+            space = odl.tensor_space(p['n'], dtype=p['dtype'])
+            arr = rs.randint(-6, 7, size=p['n'])
+            x = space.element(arr)
+            got = np.asarray(x * p['c']) if p['op'] == 'mul' else np.asarray(x / p['c'])
+            want = arr * p['c'] if p['op'] == 'mul' else arr / p['c']
+            return bool(np.array_equal(got, want)), got[:6].tolist(), want[:6].tolist()
+        if kind == 'int_truediv':
+            space = odl.tensor_space(p['n'], dtype=p['dtype'])
+            x = space.element(rs.randint(1, 7, size=p['n']) * 4)
+            y = space.element(np.full(p['n'], 2))
+            try:
+                got = np.asarray(x / y)
+            except TypeError as e:
+                return False, 'raises ' + type(e).__name__, (np.asarray(x) / 2).tolist()[:6]
+            want = np.asarray(x) / 2
+            return bool(np.array_equal(got, want)), got[:6].tolist(), want[:6].tolist()
+        if kind == 'op':
+            recipe, op = p['recipe'], p['op']
+            import random as _r
+            prng = _r.Random(p['seed'])
+            space = mk_space(recipe)
+            divk = 'div' if op in ('truediv', 'itruediv', 'rtruediv_s') else ('pow' if op in ('ipow', 'pow') else 'any')
+            x = mk_element(prng, recipe, 'div' if op == 'rtruediv_s' else ('pow' if divk == 'pow' else 'any'))
+            y = x if p.get('same') else mk_element(prng, recipe, divk)
+            if p.get('same') and divk == 'div':
+                x = y = mk_element(prng, recipe, 'div')
+            c = p.get('c', 2)
+            lx = [np.array(t.data, copy=True) for t in leaf_tensors(x)]
+            ly = [np.array(t.data, copy=True) for t in leaf_tensors(y)]
+            f = {'add': lambda u, v: u + v, 'sub': lambda u, v: u - v, 'mul': lambda u, v: u * v,
+                 'truediv': lambda u, v: u / v, 'iadd': lambda u, v: u + v, 'isub': lambda u, v: u - v,
+                 'imul': lambda u, v: u * v, 'itruediv': lambda u, v: u / v,
+                 'add_s': lambda u, v: u + c, 'radd_s': lambda u, v: c + u, 'sub_s': lambda u, v: u - c,
+                 'rsub_s': lambda u, v: c - u, 'mul_s': lambda u, v: u * c, 'rmul_s': lambda u, v: c * u,
+                 'truediv_s': lambda u, v: u / c, 'rtruediv_s': lambda u, v: c / u,
+                 'iadd_s': lambda u, v: u + c, 'isub_s': lambda u, v: u - c, 'imul_s': lambda u, v: u * c,
+                 'itruediv_s': lambda u, v: u / c, 'neg': lambda u, v: -u, 'pos': lambda u, v: +u,
+                 'copy': lambda u, v: u, 'assign': lambda u, v: v, 'ipow': lambda u, v: u ** c,
+                 'pow': lambda u, v: u ** c, 'zero': lambda u, v: 0 * u, 'one': lambda u, v: 0 * u + 1}[op]
+            want = [f(u, v) for u, v in zip(lx, ly)]
+            inplace = op.startswith('i') or op == 'assign'
+            g = {'add': lambda: x + y, 'sub': lambda: x - y, 'mul': lambda: x * y, 'truediv': lambda: x / y,
+                 'iadd': lambda: x.__iadd__(y), 'isub': lambda: x.__isub__(y), 'imul': lambda: x.__imul__(y),
+                 'itruediv': lambda: x.__itruediv__(y), 'add_s': lambda: x + c, 'radd_s': lambda: c + x,
+                 'sub_s': lambda: x - c, 'rsub_s': lambda: c - x, 'mul_s': lambda: x * c, 'rmul_s': lambda: c * x,
+                 'truediv_s': lambda: x / c, 'rtruediv_s': lambda: c / x, 'iadd_s': lambda: x.__iadd__(c),
+                 'isub_s': lambda: x.__isub__(c), 'imul_s': lambda: x.__imul__(c), 'itruediv_s': lambda: x.__itruediv__(c),
+                 'neg': lambda: -x, 'pos': lambda: +x, 'copy': lambda: x.copy(), 'assign': lambda: x.assign(y),
+                 'ipow': lambda: x.__ipow__(c), 'pow': lambda: x ** c, 'zero': lambda: space.zero(),
+                 'one': lambda: space.one()}[op]
+            res = g()
+            got = [np.asarray(t.data) for t in leaf_tensors(res)]
+            ok = all(_close(gv, wv, gv.dtype) for gv, wv in zip(got, want)) and len(got) == len(want)
+            if inplace and not all(a_ is b_ for a_, b_ in zip(leaf_tensors(res), leaf_tensors(x))):
+                ok = False
+            if not inplace:      # operands untouched (bit patterns)
+                ok = ok and all(t.data.tobytes() == u.tobytes() for t, u in zip(leaf_tensors(x), lx))
+                if res is x or any(a_ is b_ for a_, b_ in zip(leaf_tensors(res), leaf_tensors(x))):
+                    ok = False
+            if y is not x:
+                ok = ok and all(t.data.tobytes() == v.tobytes() for t, v in zip(leaf_tensors(y), ly))
+            return ok, [gv.ravel()[:4].tolist() for gv in got][:3], [np.asarray(wv).ravel()[:4].tolist() for wv in want][:3]
+    raise ValueError(kind)
+
+
+def _probe(out, key, what, kind, **params):
+    try:
+        ok, obs, exp = oracle(kind, **params)
+        detail = {'observed': obs, 'expected': exp}
+    except Exception as e:           # an exception where a result is due is a failure of the property
+        ok, detail = False, {'raised': '%s: %s' % (type(e).__name__, str(e)[:200])}
+    replay = ("import sys\nsys.path.insert(0, %r)\nfrom harness.c01 import oracle\n"
+              "ok, observed, expected = oracle(%r, **%r)\n" % (C.VERIF, kind, params))
+    out.append(C.Probe(bool(ok), key, what, replay, detail))
+
+
+def _spacekind(recipe):
+    if recipe[0] == 'T':
+        return 'tensor-' + DT[recipe[1]][0]
+    if recipe[0] == 'D':
+        return 'discr-' + DT[recipe[1]][0]
+    nested = any(c[0] == 'P' for c in recipe[1])
+    return 'pspace-nested' if nested else 'pspace'
+
+
 def probes(rng, tier):
-    return []
+    out = []
+    quick = tier == 'quick'
+    # 1. lincomb against the entry-wise NumPy result on copies, every regime x alias x scalar class x layout
+    shapes = [(3,), (99,), (100,), (3, 40), (4999,), (50000,), (50001,), (250, 200)]
+    if not quick:
+        shapes += [(1,), (2, 2), (101,), (49999,), (100, 500), (7, 14)]
+    for dtype in ['float64', 'float32', 'complex128', 'complex64', 'int64', 'int32']:
+        base, fl, bdt, tol = DT[dtype]
+        pairs = {'real': REAL_PAIRS, 'cx': CX_PAIRS, 'int': [pr for pr in INT_PAIRS if all(float(v).is_integer() for v in pr)]}[base]
+        for shape in shapes:
+            n = int(np.prod(shape))
+            if n >= 49999 and dtype not in ('float64', 'complex128') and quick:
+                continue
+            for alias in ALIAS:
+                for a, b in rng.sample(pairs, 2 if quick else 5):
+                    lay = layout_choice(rng, len(shape), want_blas=(n >= 50000 and rng.random() < 0.6))
+                    flags = None
+                    reg = 'direct' if (n < 100 or not fl) else ('fallback' if n < 50000 else 'large')
+                    nan_out = fl and rng.random() < 0.5
+                    _probe(out, 'lincomb-%s-%s-%s%s' % (reg, alias, base, '-nan-out' if nan_out else ''),
+                           'space.lincomb(%r, x1, %r, x2, out) on %s%r layouts %s, alias %s vs a*x1+b*x2 on copies; '
+                           'other operands bit-identical' % (a, b, dtype, shape, lay, alias),
+                           'lincomb', dtype=dtype, shape=list(shape), layouts=lay, alias=alias, a=a, b=b,
+                           seed=rng.randint(0, 10 ** 6), nan_out=bool(nan_out))
+    # 2. set_zero() on garbage
+    for n in [1, 3, 99, 100, 101, 50000]:
+        for fill in ('nan', 'inf'):
+            for sk in ('tensor', 'discr'):
+                key = 'set_zero-nan-survives-direct' if n < 100 else 'set_zero-garbage-%s' % ('fallback' if n < 50000 else 'blas')
+                _probe(out, key, '%s space of %d entries filled with %s: y.set_zero() gives zeros' % (sk, n, fill),
+                       'set_zero', n=n, dtype='float64', fill=fill, space=sk)
+    # 3. infinite entries are legitimate element values: copy / assign / scaling keep them
+    for n in [3, 99, 100, 50000]:
+        for op in ['assign', 'mul_scalar', 'imul_scalar', 'lincomb_b0', 'neg', 'pspace_copy']:
+            key = 'inf-times-zero-nan-direct' if n < 100 else 'inf-%s-%s' % (op, 'fallback' if n < 50000 else 'blas')
+            _probe(out, key, 'rn(%d): %s of an element with +-inf entries keeps them' % (n, op), 'inf', n=n, op=op)
+    # 4. integer spaces
+    for dtype in ('int64', 'int32'):
+        for n in (3, 150):
+            for c in (2, -3):
+                _probe(out, 'int-integer-scalar', 'tensor_space(%d, %s): x * %r' % (n, dtype, c), 'int_scalar',
+                       n=n, dtype=dtype, c=c, op='mul', seed=rng.randint(0, 999))
+            _probe(out, 'int-noninteger-scalar-truncates', 'tensor_space(%d, %s): x * 2.5 equals the entry-wise product'
+                   % (n, dtype), 'int_scalar', n=n, dtype=dtype, c=2.5, op='mul', seed=rng.randint(0, 999))
+            _probe(out, 'int-noninteger-scalar-truncates', 'tensor_space(%d, %s): x / 2 equals the entry-wise quotient'
+                   % (n, dtype), 'int_scalar', n=n, dtype=dtype, c=2, op='div', seed=rng.randint(0, 999))
+            _probe(out, 'int-truediv-raises', 'tensor_space(%d, %s): x / y returns the entry-wise quotient' % (n, dtype),
+                   'int_truediv', n=n, dtype=dtype, seed=rng.randint(0, 999))
+    # 5. every operator on every space kind against NumPy on the leaves
+    recipes = [('T', 'float64', (3,)), ('T', 'float64', (120,)), ('T', 'complex128', (4,)), ('T', 'float32', (2, 3)),
+               ('D', 'float64', (5,)), ('D', 'float64', (10, 11)), ('D', 'complex128', (3, 2)),
+               ('P', [('T', 'float64', (3,)), ('D', 'float64', (2, 2))]),
+               ('P', [('T', 'float64', (2,))] * 3),
+               ('P', [('P', [('T', 'float64', (2,)), ('T', 'float64', (100,))]), ('D', 'float64', (3,))]),
+               ('P', [('P', [('P', [('T', 'complex128', (2,))] * 2)] * 2)])]
+    if not quick:
+        recipes += [rand_recipe(rng, rng.choice(['real', 'cx']), rng.randint(1, 3)) for _ in range(12)]
+        recipes += [('D', 'float64', (50000,)), ('T', 'float64', (250, 200))]
+    ops = ['add', 'sub', 'mul', 'truediv', 'iadd', 'isub', 'imul', 'itruediv', 'add_s', 'radd_s', 'sub_s', 'rsub_s',
+           'mul_s', 'rmul_s', 'truediv_s', 'rtruediv_s', 'iadd_s', 'isub_s', 'imul_s', 'itruediv_s', 'neg', 'pos',
+           'copy', 'assign', 'ipow', 'pow', 'zero', 'one']
+    for r in recipes:
+        cx = any(DT[l[1]][0] == 'cx' for l in leaf_recipes(r))
+        for op in ops:
+            for same in ((False, True) if op in ('add', 'sub', 'mul', 'truediv', 'iadd', 'isub', 'imul', 'itruediv', 'assign') else (False,)):
+                c = rng.randint(0, 5) if op in ('ipow', 'pow') else rng.choice([2, -4, 0.5, 1, -1] + ([2j, 1 - 1j] if cx else []))
+                _probe(out, 'op-%s-%s%s' % (op, _spacekind(r), '-self' if same else ''),
+                       '%s on %r%s vs NumPy on the leaves; operands untouched' % (op, r, ' (other is self)' if same else ''),
+                       'op', recipe=r, op=op, same=same, c=c, seed=rng.randint(0, 10 ** 6))
+    return out
 
 
-RULE = ''
-ASSUMPTIONS = []
-TRUSTED = []
-LEVEL_TEXT = ''
-LEVEL_NOTE = ''
-TECHNIQUE = ''
+RULE = ('tensor level: space.lincomb(a, x1, b, x2, out) on tensor spaces; every (5 identity-aliasing patterns) x '
+        '(20-22 scalar pairs covering 0, 1, -1, generic, complex, a+b == 0) combination in the direct (3 entries) and '
+        'fallback (100 entries) regime for each of 7 dtypes (float16/32/64, complex64/128, int32/64), a sample of '
+        'them on 50000 entries (BLAS) and on the border sizes 99, 100, 101, 4999, 49999, 50000, 50001, 250x200, on '
+        'C / F / strided / mixed layouts; the same with NaN in every buffer the call must not read and with NaN '
+        'inside an operand (poisoned carrier option Q).  space level: 32 public operations (lincomb with and without '
+        'b, multiply, divide, assign, copy, set_zero, + - * / with element and scalar, reflected and in-place forms, '
+        'neg, pos, **=) and 12 power-space broadcasting forms on tensor, uniform_discr and nested/power product '
+        'spaces (fixed list + random trees of depth <= 3, mixed float/int leaves), with `other is self`, shared '
+        'components and poisoned temporaries.  Inputs are small integers / dyadic scalars so float arithmetic is '
+        'exact; all buffers (not only out) are compared after the call.  A case is distinct by (operation, dtype or '
+        'space recipe, shape, layouts, alias pattern, scalars, poison kind, regime).')
+ASSUMPTIONS = ['exact arithmetic: theorems are over a field (reals / complex numbers); float rounding, overflow, '
+               'signed zeros are out of scope; inf/NaN only through the poisoned carrier (None = NaN, strict)',
+               'a buffer lists the entries of an array in logical (index) order: NumPy element-wise kernels pair '
+               'entries by index whatever the memory layout; BLAS ravel order (C vs F) is regenerated but its '
+               'consistency for equally laid out arrays is validated by the correspondence, not proved',
+               'BLAS level-1 axpy/scal/copy have their textbook semantics (hand-written in Model.v)',
+               'Python operator dispatch (which __op__ branch is taken for which operand kind, NotImplemented, '
+               '__array_priority__) is not modelled: the harness picks the model program by the kind of operand',
+               'memory overlap between DISTINCT tensor objects (views of one array) is outside the contract, as '
+               'the property says; identity is what the model tracks',
+               'temporaries created by space.element() hold arbitrary values of the right size']
+TRUSTED = ['translate/lincomb.py (Python ast -> Gallina: thresholds, regime tests, direct expression, fallback '
+           'bodies, ravel rule, decision tree), fail-closed; _blas_is_applicable and _BLAS_DTYPES are pinned',
+           'C01/Model.v interpreter of the generated syntax; C01/ModelSpace.v transcription of '
+           'odl/set/space.py operators and odl/space/pspace.py recursion (validated by the correspondence)',
+           'Q-instance of the carrier class computes the rational restriction of the proved field instance']
+LEVEL_TEXT = ('Proof: for the decision tree, fallback bodies, direct expression, thresholds and regime rule regenerated '
+              'from _lincomb_impl on every run, Coq proves over ANY field (reals and complex numbers are instances) '
+              'that for every size (all three regimes), every store, all scalars and ALL object identities of '
+              '(x1, x2, out) the call returns, out holds a*x1+b*x2 of the initial operands and nothing else changes; '
+              'at the poisoned carrier (None = NaN) that clean operands give a clean, correct result whatever out held '
+              'before; for non-floating dtypes the direct formula at every size; by induction on arbitrarily nested '
+              'product spaces that lincomb/multiply/divide are entry-wise exact at every leaf under positional aliasing. '
+              'set_zero() on garbage is proved correct from 100 entries on and refuted below (recorded finding).')
+LEVEL_NOTE = ('Validated, not proved: the transcription of the 32 public operators / broadcasting into lincomb/multiply/'
+              'divide programs (exact correspondence incl. temporaries), NumPy layout handling, BLAS, float rounding. '
+              'Open findings: NaN/inf handling of the direct regime (set_zero, copy/assign/scaling of inf), integer '
+              'spaces truncate non-integer scalars and cannot divide. All theorems are closed under the global context '
+              '(no axioms).')
+TECHNIQUE = ('Coq proof by symbolic execution of the source-regenerated decision tree over an abstract field and a '
+             'poisoned option carrier + structural induction on nested spaces + in-Coq differential correspondence')
